@@ -1398,3 +1398,6 @@ def required_labels(tier):
 
 
 KNOWN_PREDICATES = {}
+
+
+RULE = RULE + " " + ('Step modules may import an earlier sibling module (its definitions are re-registrations of the very same function and pattern) and are loaded from foreign working directories; earlier lookup results are kept and must not change when later lookups (also of the same definition) are made.')
